@@ -1,0 +1,30 @@
+//go:build verif
+
+// Contracts for the govc verifier (comment-only; see /verif/DESIGN.md).
+// This file contains no code. It is read as text by /verif/bin/govc.
+
+package parse
+
+//@ default mode int
+
+// parseAssignNode (assumed summary; the expression parser below it is not under
+// contract): on success it returns an Assign node. An expression statement such as
+// "x" or "f()" has no left-hand side: "LHS is nil for an 'expression statement'".
+//@ func (*parser).parseAssignNode
+//@   prop C11
+//@   trusted summary of the assignment parser: on success a non-nil Assign node (whose LHS may be nil); only the parser's own cursor changes
+//@   requires p != nil
+//@   ensures implies(result1 == nil, result0 != nil)
+//@   modifies *p
+
+//@ func (*parser).line
+//@   prop C11
+//@   pure
+//@   requires p != nil
+
+// parseIterateAssignNode: no nil dereference whatever parseAssignNode returns.
+//@ func (*parser).parseIterateAssignNode
+//@   prop C11
+//@   requires p != nil
+//@   ensures implies(result1 == nil, result0 != nil)
+//@   modifies *p
